@@ -480,6 +480,26 @@ class NPShim:
                         cut.append((v, rg))
                 return v
             rat_map(probe, unwrap(x))
+            if lo_c is None and hi_c is None and (lo is not None or hi is not None):
+                # bounds that are expressions themselves (np.clip(g, ge, gp)): transparent only if lo <= x <= hi wherever the three are sampled
+                def probe2(v, a=None, b=None):
+                    for d_, what in (((v - a) if a is not None else None, "below its lower bound"), ((b - v) if b is not None else None, "above its upper bound")):
+                        if isinstance(d_, Rat) and d_.const() is None:
+                            rg = P.range_probe(d_)
+                            if rg is not None and rg[0] < -1e-9 * max(1.0, abs(rg[1])):
+                                cut.append((v, (rg[0], rg[1])))
+                        elif isinstance(d_, Rat) and d_.const() is not None and float(d_.const()) < 0:
+                            cut.append((v, (float(d_.const()), float(d_.const()))))
+                    return v
+                try:
+                    if lo is not None and hi is not None:
+                        rat_map(lambda v, a, b: probe2(v, a, b), unwrap(x), unwrap(lo), unwrap(hi))
+                    elif lo is not None:
+                        rat_map(lambda v, a: probe2(v, a, None), unwrap(x), unwrap(lo))
+                    else:
+                        rat_map(lambda v, b: probe2(v, None, b), unwrap(x), unwrap(hi))
+                except Exception:
+                    pass
             if cut:
                 self.it.assume("clip(x, %s, %s) cuts values x takes (sampled range %.3g..%.3g): kept as a clip" % (lo_c, hi_c, cut[0][1][0], cut[0][1][1]))
                 return self._clip_atom(x, lo, hi)
